@@ -1,6 +1,7 @@
 """C20 — a statement's meaning does not depend on layout, letter case or clause order."""
 import re
 from .prog import short, place_fields
+from .core import EngineError
 from . import flow as F
 from . import pathrules as PR
 
@@ -39,6 +40,69 @@ def _unfolded_sources(P, f, op, depth=3, _seen=None):
             if a - 1 < len(c2.args):
                 out += [(h, loc if h is not g else c2.loc()) for h, loc in _unfolded_sources(P, g, c2.args[a - 1], depth - 1, _seen | {f.key})]
     return out
+
+
+MERGE_OK = {("Keyword", "IsNot"), ("Keyword", "NotIn"), ("DoubleColon", None), ("RightArrow", None), ("Operator", "Dual")}
+
+
+def _merge_table(R, tf):
+    """whitespace between two tokens means nothing because a token, once emitted, is final - except for a closed set of merges"""
+    P = R.prog
+    R.rule("C20.merge", "the token list is append-only except for the lexical grammar's own merges: the last token is rewritten only into "
+                        "IS NOT / NOT IN / :: / => / a two-character operator, and a token is removed only where `--` starts a comment - no other "
+                        "place takes an emitted token back (`-` `1` stays two tokens whether or not a blank separates them)")
+    shrink = [c for c in tf.calls if re.search(r"^alloc::vec::Vec::(pop|remove|truncate|clear|insert|swap_remove|retain|drain|split_off|dedup\w*)$", short(c.name))
+              and c.args and "ParserToken" in (c.args[0].get("ty") or "")]
+    n = 0
+    for c in shrink:
+        minus = 0
+        for (sw, lab, tgt) in F.guards_dominating(tf, c.bb):
+            info = F.switch_info(tf, sw)
+            if info and info[0] == "int" and info[1].get("ty") == "char" and lab == "45":
+                minus += 1
+        n += 1
+        if minus >= 2 and short(c.name).split("::")[-1] in ("pop", "remove", "truncate"):
+            R.ok("C20.merge", "tokenize|comment-start", "a token is taken back only behind `last token is the operator --` (comment start)", c.loc())
+        else:
+            R.violation("C20.merge", "tokenize|token-retracted",
+                        "tokenize takes an already emitted token back (%s) somewhere else than at the start of a `--` comment: what the "
+                        "characters mean then depends on whether they touch (e.g. `-1` and `- 1` tokenize differently)"
+                        % short(c.name).split("::")[-1], [c.loc()])
+    stores = [(i, s_) for i, s_ in tf.stmts() if s_["k"] == "assign" and "*" in s_["pl"]["p"] and
+              any(isinstance(e, dict) and e.get("n") == "token" and (e.get("adt") or "").endswith("ParserToken") for e in s_["pl"]["p"])]
+    for i, s_ in stores:
+        kind = None
+        rv = s_["rv"]
+        src = rv["op"] if rv["k"] == "use" else None
+        if rv["k"] == "aggr":
+            defs = [s_]
+        elif src is not None and src["k"] in ("copy", "move") and not src["pl"]["p"]:
+            defs = [d for j, d in tf.stmts() if d["k"] == "assign" and d["pl"]["l"] == src["pl"]["l"] and not d["pl"]["p"]]
+        else:
+            defs = []
+        if len(defs) == 1 and defs[0]["rv"]["k"] == "aggr" and (defs[0]["rv"].get("adt") or "").endswith("tokenizer::Token"):
+            var = defs[0]["rv"].get("variant")
+            sub = None
+            for op in defs[0]["rv"]["ops"]:
+                if op.get("k") == "const":
+                    m = re.search(r"(Keyword|Operator)::(\w+)", str(op.get("v", "")))
+                    sub = m.group(2) if m else sub
+                elif op.get("k") in ("copy", "move") and not op["pl"]["p"]:
+                    d2 = [d for j, d in tf.stmts() if d["k"] == "assign" and d["pl"]["l"] == op["pl"]["l"] and not d["pl"]["p"] and d["rv"]["k"] == "aggr"]
+                    if len(d2) == 1:
+                        sub = d2[0]["rv"].get("variant")
+            kind = (var, sub if var in ("Keyword", "Operator") else None)
+        n += 1
+        if kind in MERGE_OK:
+            R.ok("C20.merge", "tokenize|rewrite|%s" % "::".join(x for x in kind if x), "last token rewritten into %s" % "::".join(x for x in kind if x),
+                 "%s:%d" % (tf.file, s_["line"]), nontrivial=False)
+        else:
+            R.violation("C20.merge", "tokenize|rewrite|%s" % ("::".join(x for x in kind if x) if kind else "unknown"),
+                        "tokenize rewrites an already emitted token into %s, which is not one of the lexical grammar's merges (IS NOT, NOT IN, ::, "
+                        "=>, two-character operators): the token stream depends on how the characters are laid out"
+                        % ("::".join(x for x in kind if x) if kind else "a value the rule cannot identify"), ["%s:%d" % (tf.file, s_["line"])])
+    if n == 0:
+        raise EngineError("C20.merge: no token merge site found in tokenize (anchors lost)")
 
 
 def run(R):
@@ -240,5 +304,6 @@ def run(R):
     duals_ = [(i, s_) for i, s_ in tf.stmts() if s_["k"] == "assign" and s_["rv"]["k"] == "aggr" and s_["rv"].get("variant") == "Dual"]
     if duals_:
         rules_c13.adjacency_rule(R, "C20.adjacent", tf, duals_)
+    _merge_table(R, tf)
     R.assume("pairs of texts are not compared; whitespace/comment handling is covered only through the absence of location data and the "
              "operator-fusion rule of C13")
